@@ -1431,6 +1431,9 @@ func (vx *Vaxis) openTty(tgts []*os.File) error {
 
 	vx.tw = newWriter(vx)
 	vx.parser = ansi.NewParser(vx.console)
+	// this goroutine reads from its own parser only: after a Suspend and
+	// Resume vx.parser is a new one, with its own goroutine
+	parser := vx.parser
 
 	go func() {
 		defer func() {
@@ -1441,13 +1444,13 @@ func (vx *Vaxis) openTty(tgts []*os.File) error {
 		}()
 		for {
 			select {
-			case seq := <-vx.parser.Next():
+			case seq := <-parser.Next():
 				switch seq := seq.(type) {
 				case ansi.EOF:
 					return
 				default:
 					vx.handleSequence(seq)
-					vx.parser.Finish(seq)
+					parser.Finish(seq)
 				}
 			case <-vx.chSigWinSz:
 				atomicStore(&vx.resize, true)
